@@ -63,9 +63,11 @@ def parity_of(yterm):
     return kinds
 
 
-def parity_of_cond(c):
+def parity_of_cond(c, facts=()):
     """Does the filter condition select elements by their parity? Decided semantically: with the element's parity set to odd and
-    to even the condition becomes A and not-A (for whatever A the rest of it is), e.g. `x % 2`, `not x % 2`, `x & 1 == flag`."""
+    to even the condition becomes A and not-A (for whatever A the rest of it is), e.g. `x % 2`, `not x % 2`, `x & 1 == flag`.
+    When A depends on one byte (`x % 2 == version - 2`), A and not-A are compared for every value of that byte the dominating
+    facts leave possible."""
     c = rules.unfz(c)
 
     def with_parity(odd):
@@ -77,7 +79,24 @@ def parity_of_cond(c):
     c1, c0 = with_parity(True), with_parity(False)
     if tm.contains(c1, lambda t: isinstance(t, T) and t.op == "bv"):
         return False  # the condition looks at more of the element than its parity
-    return tm.veq(c1, tm.lnot(c0)) or tm.veq(tm.lnot(c1), c0)
+    if tm.veq(c1, tm.lnot(c0)) or tm.veq(tm.lnot(c1), c0):
+        return True
+    atoms = []
+    for t in (c1, c0):
+        tm.contains(t, lambda u: isinstance(u, T) and u.op == "idx" and isinstance(u.args[1], int) and tm.tyof(rules.unfz(u.args[0])) == tm.BYTES and
+                    (u in atoms or atoms.append(u)) and False)
+    if len(atoms) != 1:
+        return False
+    a, possible = atoms[0], 0
+    for v in range(256):
+        sub = lambda u, v=v: v if isinstance(u, T) and u == a else None
+        if any(tm.subst(f, sub) is False for f in facts if isinstance(f, T)):
+            continue  # excluded by a dominating check
+        r1, r0 = tm.subst(c1, sub), tm.subst(c0, sub)
+        if not (isinstance(r1, bool) and isinstance(r0, bool) and r1 != r0):
+            return False
+        possible += 1
+    return possible > 0
 
 
 def check_point_decoder(ctx, oid="C14.1"):
@@ -214,7 +233,7 @@ def check_point_decoder(ctx, oid="C14.1"):
                 continue
             base = rules.unfz(opnd.args[0])
             if opnd.args[1] == 0 and isinstance(base, T) and base.op == "map" and isinstance(rules.unfz(base.args[1]), T) and rules.unfz(base.args[1]).op == "app" and \
-                    rules.unfz(base.args[1]).args[0] == "bits.ecmath.y_from_x" and base.args[2] is not None and parity_of_cond(base.args[2]):
+                    rules.unfz(base.args[1]).args[0] == "bits.ecmath.y_from_x" and base.args[2] is not None and parity_of_cond(base.args[2], facts):
                 continue  # the two roots y and p - y have different parities (p is odd, y != 0): selecting by parity finds one
         if exc == "KeyError" and isinstance(opnd, T) and opnd.op == "lookup":
             if any(isinstance(f, T) and f.op == "cmp" and f.args[0] == "in" and tm.veq(f.args[1], opnd.args[1]) for f in facts):
